@@ -303,3 +303,53 @@ Proof. intros m i k Hm Hi Hk E. rewrite <- E. apply crc16_single_bit; auto. Qed.
 Theorem crc8_valid_single_bit_detected : forall m i k, Forall byte m -> (i < length m)%nat -> k < 8 ->
   crc8 m = 0 -> crc8 (flip_bit m i k) <> 0.
 Proof. intros m i k Hm Hi Hk E. rewrite <- E. apply crc8_single_bit; auto. Qed.
+
+(* ---- uniqueness of the stored checksum: the only trailer that makes the sum zero ---- *)
+Lemma crc8_unique m c : Forall byte m -> c < 256 -> crc8 (m ++ [c]) = 0 -> c = crc8 m.
+Proof.
+  intros Hm Hc H. unfold crc8 in *. rewrite fold_left_app in H. cbn [fold_left] in H.
+  set (s := fold_left upd8 m 0) in *.
+  assert (Hs : s < 256) by (apply (run_closed 256 upd8 upd8_closed); auto; reflexivity).
+  unfold upd8 in H. apply (table_inj0_spec _ crc8_table_inj0) in H; [|apply lxor_byte; assumption].
+  apply N.lxor_eq in H. auto.
+Qed.
+
+Definition trailer16_inj_P (hl : N) : bool :=
+  negb (upd16 (upd16 0 (N.shiftr hl 8)) (N.land hl 255) =? 0) || (hl =? 0).
+Lemma trailer16_inj_ok : sweep16 trailer16_inj_P = true.
+Proof. vm_compute. reflexivity. Qed.
+
+Lemma byte_pair hi lo : hi < 256 -> lo < 256 ->
+  hi * 256 + lo < 65536 /\ N.shiftr (hi * 256 + lo) 8 = hi /\ N.land (hi * 256 + lo) 255 = lo.
+Proof.
+  intros Hh Hl. split; [lia|]. split.
+  - rewrite N.shiftr_div_pow2. change (2 ^ 8) with 256. symmetry. apply (N.div_unique _ 256 hi lo); lia.
+  - change 255 with (N.ones 8). rewrite N.land_ones. change (2 ^ 8) with 256. symmetry. apply (N.mod_unique _ 256 hi lo); lia.
+Qed.
+
+Lemma crc16_unique m hi lo : Forall byte m -> hi < 256 -> lo < 256 ->
+  crc16 (m ++ [hi; lo]) = 0 -> hi = N.shiftr (crc16 m) 8 /\ lo = N.land (crc16 m) 255.
+Proof.
+  intros Hm Hh Hl H.
+  pose proof (crc16_append m Hm) as H0.
+  unfold crc16 in *. rewrite fold_left_app in H, H0. cbn [fold_left] in H, H0.
+  set (c := fold_left upd16 m 0) in *.
+  assert (Hc : c < 65536) by (apply (run_closed 65536 upd16 upd16_closed); auto; reflexivity).
+  set (h0 := N.shiftr c 8) in *. set (l0 := N.land c 255) in *.
+  assert (Hh0 : h0 < 256) by (apply shiftr8_byte; exact Hc).
+  assert (Hl0 : l0 < 256).
+  { unfold l0. change 255 with (N.ones 8). rewrite N.land_ones. apply N.mod_upper_bound. discriminate. }
+  (* linearity: the difference of the two trailers, started from 0, also sums to zero *)
+  assert (Hd : upd16 (upd16 0 (N.lxor hi h0)) (N.lxor lo l0) = 0).
+  { pose proof (upd16_lin c c hi h0 Hc Hc Hh Hh0) as L1. rewrite N.lxor_nilpotent in L1.
+    pose proof (upd16_lin (upd16 c hi) (upd16 c h0) lo l0
+                  (upd16_closed _ _ Hc Hh) (upd16_closed _ _ Hc Hh0) Hl Hl0) as L2.
+    rewrite <- L1 in L2. rewrite L2, H, H0. reflexivity. }
+  assert (Hxh : N.lxor hi h0 < 256) by (apply lxor_byte; assumption).
+  assert (Hxl : N.lxor lo l0 < 256) by (apply lxor_byte; assumption).
+  destruct (byte_pair _ _ Hxh Hxl) as (Hp & Es & El).
+  pose proof (sweep16_spec _ trailer16_inj_ok _ Hp) as S. unfold trailer16_inj_P in S.
+  rewrite Es, El, Hd in S. cbn [N.eqb negb orb] in S. apply N.eqb_eq in S.
+  assert (N.lxor hi h0 = 0 /\ N.lxor lo l0 = 0) as [Z1 Z2] by lia.
+  apply N.lxor_eq in Z1. apply N.lxor_eq in Z2. auto.
+Qed.
